@@ -211,7 +211,7 @@ Proof.
     destruct (x_unwinding x); cbn [fst]; rewrite (originals_kill w i it Hn); lia.
   - (* verify *)
     destruct (live_inst w i) as [it|] eqn:Hl; [|cbn; lia]. apply live_inst_nth in Hl as [Hn _].
-    destruct (negb (i_original it)); cbn [fst]; rewrite (originals_kill w i it Hn); lia.
+    destruct (x_unwinding x); destruct (negb (i_original it)); cbn [fst]; rewrite (originals_kill w i it Hn); lia.
   - (* no_verify_in_drop *)
     destruct (live_inst w i) as [it|] eqn:Hl; [|cbn; lia]. apply live_inst_nth in Hl as [Hn _].
     destruct (negb (i_original it)); cbn [fst].
